@@ -5,7 +5,7 @@
    that the regenerated chain is [(e,[e;e]); (s,[e;s])] with separator [s] and e <> s (for the
    current source e = backslash, s = comma; any other pair of distinct characters also passes). *)
 From Coq Require Import ZArith List.
-From FL Require Import Merge Merge_proofs MergeGen MergeSrc MergeSrc_proofs.
+From FL Require Import Merge Merge_proofs MergeGen MergeSrc MergeSrc_proofs MergeNecessity.
 From FLGen Require Gen_merge.
 Import ListNotations.
 
@@ -88,6 +88,39 @@ Theorem C13_control_block_partition :
     control_column_src tab = Some col -> partition_ids str_eqb col = partition_ids row_eqb tab.
 Proof. exact (block_partition Gen_merge.control_block Gen_merge.steps Gen_merge.sep eq_refl eq_refl eq_refl). Qed.
 Print Assumptions C13_control_block_partition.
+
+(* ---- NECESSITY: every ingredient of the chain is needed, for every pair of distinct characters
+   (e = escape, s = separator).  A chain that escapes nothing, only one of the two characters, both in
+   the other order, or the separator by something other than the escape character, sends two different
+   non-empty rows to the same key (collide = both rows non-empty, different, same merged string); and
+   chain_ok, the test the theorems above rest on, rejects each of them.  So C13_merge_injective is not
+   true "for the wrong reason" (an over-permissive acceptance test), and these rows are the replays
+   offered when a changed source regenerates one of these chains. *)
+Theorem C13_chain_steps_necessary :
+  forall e s : Z, e <> s ->
+    collide [] [s] [[s]] [[]; []] /\
+    collide [(s, [e; s])] [s] [[e]; []] [[s]] /\
+    collide [(e, [e; e])] [s] [[s]] [[]; []] /\
+    collide [(s, [e; s]); (e, [e; e])] [s] [[s]] [[e]; []] /\
+    collide [(e, [e; e]); (s, [s; s])] [s] [[s]] [[]; []; []].
+Proof.
+  exact (fun e s H => conj (no_escape_collides s) (conj (sep_only_collides e s H) (conj (esc_only_collides e s H)
+           (conj (wrong_order_collides e s H) (doubled_sep_collides e s H))))).
+Qed.
+Print Assumptions C13_chain_steps_necessary.
+
+Theorem C13_defective_chains_rejected :
+  forall e s : Z, e <> s ->
+  chain_ok [] [s] = false /\ chain_ok [(s, [e; s])] [s] = false /\ chain_ok [(e, [e; e])] [s] = false /\
+  chain_ok [(s, [e; s]); (e, [e; e])] [s] = false /\ chain_ok [(e, [e; e]); (s, [s; s])] [s] = false.
+Proof. exact defective_chains_rejected. Qed.
+Print Assumptions C13_defective_chains_rejected.
+
+(* the executable collision test the harness evaluates on the regenerated chain is constantly false *)
+Theorem C13_no_collision_on_source_chain :
+  forall r r' : list str, collideb Gen_merge.steps Gen_merge.sep r r' = false.
+Proof. exact (fun r r' => accepted_chain_never_collides Gen_merge.steps Gen_merge.sep r r' eq_refl). Qed.
+Print Assumptions C13_no_collision_on_source_chain.
 
 (* non-vacuity: premises are satisfiable on values containing separator, backslash, empty string *)
 Example C13_example :
